@@ -409,6 +409,10 @@ func c20ClientSweep(e *c20Env, statuses []int, execStatuses map[int]bool) ([]c20
 		var st int
 		fmt.Sscanf(r.URL.Query().Get("s"), "%d", &st)
 		withCar := r.URL.Query().Get("car") == "1"
+		if r.URL.Query().Get("loc") == "1" {
+			// the reply names another location (which would answer 200 with a valid CAR body): still a non-200 reply
+			w.Header().Set("Location", "/?s=200&car=1")
+		}
 		if withCar {
 			w.Header().Set("Content-Type", c20Car)
 		} else {
@@ -428,10 +432,16 @@ func c20ClientSweep(e *c20Env, statuses []int, execStatuses map[int]bool) ([]c20
 	}
 	var res []c20ChanCase
 	for _, st := range statuses {
-		for _, withCar := range []bool{true, false} {
+		for vi, withCar := range []bool{true, false, true} {
 			q := "0"
 			if withCar {
 				q = "1"
+			}
+			if vi == 2 {
+				if st == 200 || (st/100 != 3 && st != 201 && st != 202) {
+					continue
+				}
+				q += "&loc=1"
 			}
 			u, _ := url.Parse(fmt.Sprintf("%s/?s=%d&car=%s", ts.URL, st, q))
 			ch := thttp.NewHTTPChannel(u)
@@ -494,7 +504,7 @@ func c20WriteCases(dir, name string, e *c20Env, cases []c20Case, obs []c20Obs) e
 	return writeFile(dir, name, sb.String())
 }
 
-var c20ExecStatuses = map[int]bool{200: true, 201: true, 204: true, 301: true, 400: true, 406: true, 415: true, 500: true, 503: true}
+var c20ExecStatuses = map[int]bool{200: true, 201: true, 204: true, 301: true, 302: true, 303: true, 307: true, 308: true, 400: true, 406: true, 415: true, 500: true, 503: true}
 
 func c20WriteClient(dir, name string, chans []c20ChanCase) error {
 	var citems []string
